@@ -134,7 +134,7 @@ CleanOps == {"remove_tautologies", "remove_duplicate_rows", "remove_redundant", 
 F22 == {A(<<<<1, 2>>, <<0, -1>>>>, <<1, 0>>, 2), A(<<<<0, 1>>, <<2, 0>>>>, <<0, -2>>, 2), A(<<<<2, -2>>, <<1, 1>>>>, <<-1, 1>>, 2)}
 F12 == {A(<<<<1, -1>>>>, <<2>>, 2), A(<<<<0, 0>>>>, <<0>>, 2)}
 F21 == {A(<<<<1>>, <<-2>>>>, <<0, 1>>, 1)}
-F32 == {A(<<<<1, 0>>, <<0, 0>>, <<0, 2>>>>, <<0, 0, 1>>, 2), A(<<<<0, 0>>, <<0, 0>>, <<0, 0>>>>, <<1, 0, 0>>, 2)}
+F32 == {A(<<<<1, 0>>, <<0, 0>>, <<0, 2>>>>, <<0, 0, 1>>, 2), A(<<<<0, 0>>, <<0, 0>>, <<0, 0>>>>, <<1, 0, 0>>, 2), A(<<<<0, 0>>, <<1, 1>>, <<0, 0>>>>, <<-2, 0, 0>>, 2)}
 Z22 == A(<<<<0, 3>>, <<0, -1>>>>, <<1, 1>>, 2)
 F23 == {A(<<<<1, 0, -1>>, <<2, 1, 0>>>>, <<0, 1>>, 3)}
 F33 == {A(<<<<1, 2, 0>>, <<0, 1, -1>>, <<3, 0, 1>>>>, <<1, 0, -1>>, 3)}
